@@ -97,8 +97,9 @@ theorem wakeAllVal_p (ws : List Nat) (r : RState) (hd : r.dead = false) :
   | nil => exact ⟨rfl, hd⟩
   | cons w ws ih =>
     have h := vtWake_p r w hd
-    have := ih (vtWake r w) h.2
-    rw [h.1] at this
+    have := ih (lg (vtWake r w) [cWake w]) h.2
+    have e : (lg (vtWake r w) [cWake w]).s = (vtWake r w).s := rfl
+    rw [e, h.1] at this
     exact this
 
 theorem wakeAllRef_p (ws : List Nat) (r : RState) (hd : r.dead = false) :
@@ -110,8 +111,10 @@ theorem wakeAllRef_p (ws : List Nat) (r : RState) (hd : r.dead = false) :
     have h := vtWakeByRef_p (vtClone r w) w (hc.2.trans hd)
     rw [hc.1] at h
     have hdp := vtDrop_p (vtWakeByRef (vtClone r w) w) w
-    have := ih (vtDrop (vtWakeByRef (vtClone r w) w) w) (hdp.2.trans h.2)
-    rw [hdp.1, h.1] at this
+    have := ih (lg (vtDrop (vtWakeByRef (vtClone r w) w) w) [cClone w, cRef w, cDrop w]) (hdp.2.trans h.2)
+    have e : (lg (vtDrop (vtWakeByRef (vtClone r w) w) w) [cClone w, cRef w, cDrop w]).s =
+      (vtDrop (vtWakeByRef (vtClone r w) w) w).s := rfl
+    rw [e, hdp.1, h.1] at this
     exact this
 
 theorem rSignal_sticky (r : RState) (k : Nat) (hs : r.s.sticky = true) :
@@ -313,8 +316,9 @@ theorem wakeAllVal_d (ws : List Nat) (r : RState) (hd : r.dead = true) :
   | nil => exact ⟨rfl, hd⟩
   | cons w ws ih =>
     have h := vtWake_d r w hd
-    have := ih (vtWake r w) h.2
-    rw [h.1] at this
+    have := ih (lg (vtWake r w) [cWake w]) h.2
+    have e : (lg (vtWake r w) [cWake w]).s = (vtWake r w).s := rfl
+    rw [e, h.1] at this
     exact this
 
 theorem wakeAllRef_d (ws : List Nat) (r : RState) (hd : r.dead = true) :
@@ -326,8 +330,10 @@ theorem wakeAllRef_d (ws : List Nat) (r : RState) (hd : r.dead = true) :
     have h := vtWakeByRef_d (vtClone r w) w (hc.2.trans hd)
     rw [hc.1] at h
     have hdp := vtDrop_p (vtWakeByRef (vtClone r w) w) w
-    have := ih (vtDrop (vtWakeByRef (vtClone r w) w) w) (hdp.2.trans h.2)
-    rw [hdp.1, h.1] at this
+    have := ih (lg (vtDrop (vtWakeByRef (vtClone r w) w) w) [cClone w, cRef w, cDrop w]) (hdp.2.trans h.2)
+    have e : (lg (vtDrop (vtWakeByRef (vtClone r w) w) w) [cClone w, cRef w, cDrop w]).s =
+      (vtDrop (vtWakeByRef (vtClone r w) w) w).s := rfl
+    rw [e, hdp.1, h.1] at this
     exact this
 
 theorem foldl_decStrong_p (l : List Nat) (r : RState) :
@@ -488,7 +494,7 @@ theorem same_rRun (r : RState) (x : XState) (op : XOp) (h : Same r x) (hq : x.de
       | some t =>
         simp only []
         have := vtWakeByRef_p r t hd
-        exact same_settle_alive hdead ⟨by rw [this.1, hs], by show _ = x.dead; rw [hdead]; exact this.2⟩
+        exact same_settle_alive hdead ⟨by show (vtWakeByRef r t).s = _; rw [this.1, hs], by show _ = x.dead; rw [hdead]; exact this.2⟩
     | clone k i =>
       simp only [rRun, xRun, xApply]
       rw [hs]
